@@ -522,7 +522,8 @@ Proof.
 Qed.
 
 (* ---------- binary and gates: two deltas ---------- *)
-Lemma binary_uint_hit n : n < 2 ^ 56 -> lrd binary_uint (varint_encode n) (Ok n).
+Lemma binary_uint_hit n :
+  n < 2 ^ 56 -> lrd binary_uint (varint_encode n) (Ok (n, is_byte (last_byte (varint_encode n)) 10)).
 Proof.
   intros Hn. apply lrd_intro. intros c v s tail Hat Hle Hs. pose proof Hat as (HS & Hc & Hwf).
   pose proof (at_bytes _ Sbytes _ _ Hat) as Hb.
@@ -534,6 +535,13 @@ Proof.
   exists s, v'. split; [exact Hrun|]. repeat split; [rewrite HS'; exact HS|rewrite Hc', Hc; reflexivity|exact Hwf'].
 Qed.
 
+(* a line feed that ends the code is recorded as a line break (the line bookkeeping lr' of lrd is existential) *)
+Lemma lrd_ends_line (b : bool) : lrd (if b then line_at_offset 0 else pret tt) [] tt.
+Proof.
+  destruct b; [|apply lrd_ret]. apply lrd_intro. intros c v s tail Hat _ _. eexists. exists v.
+  split; [apply runs_line_at_offset|]. change (nlen (@nil byte)) with 0. rewrite N.add_0_r. exact Hat.
+Qed.
+
 Lemma delta_code_hit code d : d <= code -> d < 2 ^ 56 -> lrd (delta_code code) (varint_encode d) (Ok (code - d)).
 Proof.
   intros Hd Hn. unfold delta_code.
@@ -541,7 +549,8 @@ Proof.
   - apply lrd_intro. intros c v s tail Hat _ _. exists s, (v_setmark v). split; [apply runs_pset_mark|].
     change (nlen (@nil byte)) with 0. rewrite N.add_0_r. apply at_setmark. exact Hat.
   - eapply lrd_ext; [eapply lrd_rbnd; [apply (binary_uint_hit d Hn)|]|apply app_nil_r].
-    assert ((code <? d) = false) as -> by (apply N.ltb_ge; exact Hd). apply lrd_ret.
+    cbv beta iota. assert ((code <? d) = false) as -> by (apply N.ltb_ge; exact Hd).
+    eapply lrd_ext; [eapply lrd_pbnd; [apply lrd_ends_line|apply lrd_ret]|reflexivity].
 Qed.
 
 (* binary next_and_gate on what write_and_gate wrote for inputs in the writer's order *)
